@@ -131,9 +131,11 @@ fn classes() -> Vec<Class> {
         c("raw_query_format", "/json", false, 0, 2, br#"{"a":5}"#),
         c("unknown_query_format", "/json", false, 9, 2, br#"{"a":5}"#),
     ];
-    let mut bad = c("bad_version", "/json", false, 1, 2, br#"{"a":5}"#);
-    bad.version = 2;
-    v.push(bad);
+    for (name, ver) in [("bad_version", 2u8), ("bad_version0", 0), ("bad_version255", 255), ("bad_version3", 3)] {
+        let mut bad = c(name, "/json", false, 1, 2, br#"{"a":5}"#);
+        bad.version = ver;
+        v.push(bad);
+    }
     let mut nonutf8 = c("non_utf8_query", "/json", false, 1, 2, br#"{"a":5}"#);
     nonutf8.raw_query = Some(vec![b'/', 0xFF, 0xFE, b'x']);
     v.push(nonutf8);
